@@ -383,6 +383,8 @@ def run(model: Model, rep: Report, tier: str) -> None:
         ("R14.2", f"{NXMG}.intervene", "intervened", {"self": GT, "variables": ("set", ("cls", "y0.dsl.Intervention"))},
          ("y0.dsl.Variable.intervene", "y0.dsl.CounterfactualVariable.intervene", f"{NXMG}.from_edges"), "filters",
          "every node relabelled; a directed edge is kept iff its target is not intervened, a bidirected edge iff neither endpoint is", {"impl_self_type": GT}),
+        ("R14.2", "y0.dsl._to_interventions", "as_interventions", {"variables": ("list", ("cls", "y0.dsl.Variable"))}, (), "one-intervention-per-variable",
+         "the subscripts a node gets under intervene(S) are exactly S: every given variable becomes one intervention, none is merged with another or dropped"),
         ("R14.4", f"{NXMG}.__eq__", "same_graph", {"self": GT, "other": GT}, (), "set-views",
          "same node set, directed edge set and bidirected edge set, compared through set-like views", {"impl_self_type": GT}),
     ], "yvref.c14", _mk14, SetAlg(rewriter(graph_rewrite)), construct=construct, loc=loc, post=nxden.post_effects_only)
